@@ -42,7 +42,7 @@ func (c04) Info() core.Info {
 
 func c04NumLeaves() []*ref.Expr {
 	return []*ref.Expr{
-		ref.N(1), ref.N(2), ref.N(3), ref.Fl(0.5), ref.Fl(1.5), ref.Fl(2.0),
+		ref.N(1), ref.N(2), ref.N(3), ref.Fl(0.5), ref.Fl(1.5), ref.Fl(2.0), ref.Fl(0.0625),
 		ref.Call("int", ref.Value()), ref.Call("float", ref.Value()),
 		ref.Call("strlen", ref.S("ab")), ref.Call("int", ref.S("3")), ref.Call("float", ref.S("1.5")),
 	}
@@ -149,7 +149,7 @@ func (c04) RunUnit(t core.Tier, u int, r *core.Reporter) {
 		}
 	case "chain4q":
 		// quick tier: 4-element + and * chains over a reduced leaf pool
-		Lq := []*ref.Expr{ref.N(2), ref.N(3), ref.Fl(0.5), ref.Call("int", ref.Value()), ref.Call("float", ref.Value())}
+		Lq := []*ref.Expr{ref.N(2), ref.N(3), ref.Fl(0.5), ref.Fl(0.0625), ref.Call("int", ref.Value()), ref.Call("float", ref.Value())}
 		for _, a := range Lq {
 			for _, b := range Lq {
 				for _, c := range Lq {
